@@ -577,11 +577,19 @@ Definition m1m2_class (c : conn_case) : Z :=
 
 (* C08: exact correspondence with M2 on every schedule; the monitor on the observation; and
    the schedules on which segmentation / timing changes the behaviour, by class *)
+(* every frame the client received is a complete, canonical packet of the phase it is in: a torn
+   or interleaved frame (e.g. the rest of a Keep Alive overtaken by the next packet) decodes as
+   garbage *)
+Definition sends_wellformed (c : conn_case) : bool :=
+  forallb (fun e => match e with TSend p _ => negb (String.eqb (p_name p) "?") | _ => true end)
+          (obs_sends (intent_of c =? 0) false (cc_sent c)).
+
 Definition check_c08c (c : conn_case) : Z :=
   let k := corr_conn2 c in
   if k =? 4 then 4 else
   k + moni (negb (outcome_eqb (cc_outcome c) (OErr KPanic))
             && negb (Z.testbit (cc_flags c) 1)
+            && sends_wellformed c
             && (if Z.testbit (cc_flags c) 0 then true
                 else match first_badlen (frames_of (cf_max_len (cc_cfg c)) (cc_segs c)) with
                      | Some _ => true
